@@ -20,6 +20,8 @@
      C06_monitor_rel : forall c t0 ops, c06_rel_ok c ops (fst (srun c t0 ops)) = true
      C06_monitor     : forall c t0 ops, limiter_blocked_on_sink c ops (fst (srun c t0 ops)) = false ->
                                         c06_ok c ops (fst (srun c t0 ops)) = true
+   The exact statements, for every transport, are pinned as ServerSpec.stmt_s06_rel / stmt_s06 (flag
+   level: stmt_s_v06l_rel / stmt_s_v06l; the early clause v06e is C06_never_early_monitor below).
    Environment hypothesis (C16): virtual clock below 2^35 ms (idle-wheel range of the DelayQueue). *)
 From Coq Require Import List Bool Arith NArith.
 Import ListNotations.
